@@ -2,6 +2,7 @@
 from mirlib import *
 from ranges import *
 from shape import *
+from paths import *
 import r_decclass, r_inv, r_surr, r_pendcount, r_requeue, r_endian
 
 DEC_SURR_SCOPE = lambda nm: 'Decoder::' in nm or nm.startswith(('handles::Utf16Destination', 'handles::Utf8Destination', 'handles::convert_unaligned', 'utf_16::'))
@@ -67,16 +68,58 @@ def d1(rep, f, c):
                 for o in ops:
                     vals.append(value_set(f, b, o))
                 key = '%s:Malformed(%s,%s)' % (name, expr_str(ops[0], b)[:40], expr_str(ops[1], b)[:40])
+
+                def in_range(L, A):
+                    ok = L and A and min(L) >= 1 and max(L) <= 4 and min(A) >= 0 and max(A) <= 3 and max(L) + max(A) <= 6
+                    if mod in MAXLEN and name.split('::')[0] != 'Decoder':
+                        ok = ok and max(L) <= MAXLEN[mod]
+                    return bool(ok)
+                if any(v is None for v in vals) or not in_range(*vals):
+                    # the flow-insensitive value sets do not settle it (a length computed from flags that also guard the
+                    # construction, `if a || b { .. Malformed(a as u8 * 2 + b as u8, 0) }`): evaluate per executable path
+                    pv = path_value_sets(f, b, bi)
+                    if pv is not None:
+                        vals = pv
                 if any(v is None for v in vals):
                     rep.undecidable('C01-D1', key, 'operand value set not decidable', at, c)
                     continue
                 L, A = vals
-                ok = L and A and min(L) >= 1 and max(L) <= 4 and min(A) >= 0 and max(A) <= 3 and max(L) + max(A) <= 6
-                if mod in MAXLEN and name.split('::')[0] != 'Decoder':
-                    ok = ok and max(L) <= MAXLEN[mod]
+                ok = in_range(L, A)
                 rep.ob('C01-D1', key, bool(ok), 'Malformed(length in %s, after in %s) is outside the documented ranges (length 1-4, after 0-3, sum <= 6, length <= %s)' % (
                     sorted(L), sorted(A), MAXLEN.get(mod, 4)), at, {'length': sorted(L), 'after': sorted(A)}, c)
     rep.floor('C01-D1', 'Malformed constructions', n, 130, c)
+
+
+def path_value_sets(f, b, site):
+    """[lengths, afters] of the Malformed built in block `site`, as the union over the executable acyclic paths through it
+    (paths that test one boolean twice with different outcomes are not executable); None if the paths cannot be enumerated
+    or an operand is not decidable on some path"""
+    heads = set(loop_heads(b))
+    L, A = set(), set()
+    found = False
+    try:
+        for h in [0] + sorted(heads):
+            for blks, end in enumerate_block_paths(b, h, stop=heads):
+                if site not in (blks if end[0] != 'stop' else blks[:-1]):
+                    continue
+                if not repeats_consistently(b, blks, end):
+                    continue
+                p = summarize(b, blks, end, mk=True)
+                if any(e[0] == 'cond' and isinstance(e[1], tuple) and e[1] and e[1][0] == 'c' and isinstance(e[2], bool) and bool(e[1][1]) != e[2]
+                       for e in p.events):
+                    continue
+                for e in p.events:
+                    if e[0] == 'mk' and e[2] == 'Malformed' and e[4] == site and len(e[3]) == 2:
+                        l_, a_ = value_set(f, b, e[3][0]), value_set(f, b, e[3][1])
+                        if l_ is None or a_ is None:
+                            return None
+                        # the pair, not the product: a path fixes both operands together
+                        L |= l_
+                        A |= a_
+                        found = True
+    except OverflowError:
+        return None
+    return [L, A] if found else None
 
 
 def value_set(f, b, e, depth=0):
@@ -110,6 +153,18 @@ def value_set(f, b, e, depth=0):
                     if names[i] == 'None':
                         continue
                     out.add(a)
+        return out
+    if e[0] == 'loc' and e[1] > b.arg_count and depth < 3:
+        # a local assigned on several arms (`let n = match .. { .. => 2, .. => 3 }`): the union over all its definitions
+        out = set()
+        ds = b.defs.get(e[1], [])
+        if not ds or any(k != 'assign' for _, _, k, _ in ds):
+            return None
+        for bi, si, k, node in ds:
+            v = value_set(f, b, Resolver(b).rvalue(node['rv']), depth + 1)
+            if v is None:
+                return None
+            out |= v
         return out
     if e[0] == 'bin' and e[1] == 'Add':
         l, r_ = value_set(f, b, e[2], depth), value_set(f, b, e[3], depth)
